@@ -2279,6 +2279,46 @@ def eliminate_local_memos(body, facts, memo=None):
     return removed
 
 
+def _demorgan_memo_test(I, decl_block):
+    """`if (!have || k != a ..) MISS else HIT`  ->  `if (have && k == a ..) HIT else MISS` (the form N6b is written for);
+    only when every disjunct is the negated local bool or a `!=` of plain operands, so the rewrite cannot change an evaluation"""
+    c = unwrap(I.get("cond"))
+
+    def disj(e):
+        u = unwrap(e)
+        if isinstance(u, dict) and u.get("k") == "Bin" and u.get("op") == "||":
+            return disj(u["lhs"]) + disj(u["rhs"])
+        return [u]
+    ds = disj(c)
+    if len(ds) < 2:
+        return False
+    out = []
+    seen_flag = False
+    for d in ds:
+        if isinstance(d, dict) and d.get("k") == "Un" and d.get("op") == "!":
+            u = ir.unwrap_all_casts(d.get("e"))
+            if isinstance(u, dict) and u.get("k") == "Ref" and u.get("d") == "local" and u.get("id") in decl_block and \
+                    (decl_block[u["id"]][2].get("t") or "") == "bool" and not seen_flag:
+                seen_flag = True
+                out.append(d["e"])
+                continue
+            return False
+        if isinstance(d, dict) and d.get("k") == "Bin" and d.get("op") == "!=":
+            e = dict(d)
+            e["op"] = "=="
+            out.append(e)
+            continue
+        return False
+    if not seen_flag:
+        return False
+    cond = out[0]
+    for e in out[1:]:
+        cond = {"k": "Bin", "op": "&&", "lhs": cond, "rhs": e, "t": "bool", "l": I.get("l")}
+    I["cond"] = cond
+    I["then"], I["else"] = I["else"], I["then"]
+    return True
+
+
 def eliminate_branch_memos(body, facts, memo=None):
     """N6b: a one-entry memo in hit/miss form
 
@@ -2341,6 +2381,7 @@ def eliminate_branch_memos(body, facts, memo=None):
         for idx, I in enumerate(list(sts)):
             if not (isinstance(I, dict) and I.get("k") == "If" and I.get("else") is not None and I.get("condvar") is None):
                 continue
+            _demorgan_memo_test(I, decl_block)
             cs = conj(I.get("cond"))
             flag = None
             keys = {}           # key variable id -> key expression
@@ -2415,8 +2456,28 @@ def eliminate_branch_memos(body, facts, memo=None):
 
             def json_key(x):
                 return repr(_shape(x))
-            if [_shape(x) for x in rep(hit)] != [_shape(x) for x in miss]:
+            if [_shape(x) for x in rep(hit)] != [_shape(x) for x in rep(miss)]:
                 continue
+            miss_reads_val = any(x.get("k") == "Ref" and x.get("d") == "local" and x.get("id") in vals for y in miss for x in walk(y))
+            if miss_reads_val:
+                # the rest of the storing block reads the remembered value right after storing it: that is E as long as
+                # nothing there writes what E reads (E is evaluated later once the store is gone)
+                e_roots = set()
+                for v_ in vals.values():
+                    if not is_pure(v_, facts):
+                        e_roots.add("*")
+                    for x in walk(v_):
+                        p_ = path(x) if x.get("k") in ("Ref", "Member", "This") else None
+                        if p_:
+                            e_roots.add(p_[0])
+                w_ = set()
+                for y in miss:
+                    for x in walk(y):
+                        for wp, how in node_writes(x, facts, memo if memo is not None else {}):
+                            w_.add(wp[0] if wp else "*")
+                val_roots = set("l:%s#%s" % (decl_block[i_][2].get("n"), i_) for i_ in vals)
+                if "*" in e_roots or "*" in w_ or (e_roots & w_) or (val_roots & w_):
+                    continue
             # nothing in the miss branch other than the leaf's stores mentions the memo; E mentions no memo variable
             def mentions(n, ids):
                 return any(x.get("k") == "Ref" and x.get("d") == "local" and x.get("id") in ids for x in walk(n))
@@ -2428,6 +2489,8 @@ def eliminate_branch_memos(body, facts, memo=None):
             leak = False
             for x, parents in ir.walk_with_parents(I["else"]):
                 if x.get("k") == "Ref" and x.get("d") == "local" and x.get("id") in memo_ids:
+                    if miss_reads_val and x.get("id") in vals and any(p_ is y for p_ in parents for y in rest_leaf):
+                        continue            # a read of the value just stored (replaced by E below)
                     if not any(id(p_) in store_nodes for p_ in parents + (x,)):
                         leak = True
             if leak or any(mentions(v_, memo_ids) for v_ in vals.values()):
@@ -2538,7 +2601,7 @@ def eliminate_branch_memos(body, facts, memo=None):
             if not stable:
                 continue
             # rewrite: the If becomes its miss branch without the memo stores; invalidations and declarations go
-            leaf["s"] = [x for x in leaf.get("s", []) if id(x) not in store_nodes]
+            leaf["s"] = [(rep(x) if miss_reads_val else x) for x in leaf.get("s", []) if id(x) not in store_nodes]
 
             def straighten(lst):
                 # `if (c) <leaves> else X` inside what used to be the miss branch is `if (c) <leaves>; X`
